@@ -471,7 +471,7 @@ class GenJoin(object):
             g.update({k: blob[k] for k in ('run_first', 'run_last', 'run_cleanup', 'no_recurse', 'detailed', 'action', 'no_hooks')})
         if ckind == 'vfunc':
             ms = (container or {}).get('methods', [])
-            g.update(struct_offset=blob['struct_offset'], invoker_name=ms[blob['invoker']]['name'] if blob['invoker'] < len(ms) else '')
+            g.update(struct_offset=blob['struct_offset'], invoker=blob['invoker'], methods=[x['name'] for x in ms])
         self.rec(path, kind, g, self.xcallable(el) if el is not None else None, role)
 
     def constant(self, path, blob, el, role):
@@ -546,7 +546,7 @@ class GenJoin(object):
                 fa = _at(fe)
                 cb = _kids(fe, 'callback')
                 fx = dict(name=fa.get('name', ''), readable=fa.get('readable', ''), writable=fa.get('writable', ''), bits=_int(fa.get('bits')),
-                          has_callback=bool(cb), type=self.xtype(fe), attrs=_xattrs(fe))
+                          has_callback=bool(cb), cbname=cb[0].get('name', '') if cb else '', type=self.xtype(fe), attrs=_xattrs(fe))
                 if cb and 'callback' in m:
                     self.callable('%s/field%d/cb' % (path, i), 'gen_callback', 'callback', m['callback'], cb[0], None, role + '/field/callback')
             self.rec('%s/field%d' % (path, i), 'gen_field', fg, fx, role + '/field')
@@ -556,8 +556,8 @@ class GenJoin(object):
             ms = blob.get('methods', [])
             pg = {k: m[k] for k in ('name', 'deprecated', 'readable', 'writable', 'construct', 'construct_only', 'transfer_ownership',
                                     'transfer_container_ownership')}
-            pg.update(own=self.own, setter_name=ms[m['setter']]['name'] if m['setter'] < len(ms) else '',
-                      getter_name=ms[m['getter']]['name'] if m['getter'] < len(ms) else '', type=P.type(m['type']), attrs=P.attrs(m['at']))
+            pg.update(own=self.own, setter=m['setter'], getter=m['getter'], methods=[x['name'] for x in ms], type=P.type(m['type']),
+                      attrs=P.attrs(m['at']))
             pe = nth('properties', i)
             px = None
             if pe is not None:
